@@ -338,6 +338,10 @@ var c17Progs = []string{
 	"(set 'x1 A) (defun assistfn (num) (+ num x1)) (debug-print (assistfn B))",
 	"(defun squarefn (val) (* val val)) (defun dist2 (x1 x2) (+ (squarefn x1) (squarefn x2))) (debug-print (dist2 A B))",
 	"(set 'x2 32) (set 'x1 1) (defun sumfn (val) (+ val x1 x2)) (defun mulfn (val) (* val x2)) (debug-print (sumfn A) (mulfn B) x2)",
+	// a package-qualified reference under a LOCAL binding of the same bare name and kind
+	"(in-package 'lib) (export 'limit) (set 'limit 10) (in-package 'user) (defun clampfn (val) (let ([limit 3]) (if (> val limit) lib:limit val))) (debug-print (clampfn A) (clampfn B))",
+	"(in-package 'lib) (export 'helperfn) (defun helperfn (val) (+ val 100)) (in-package 'user) (defun usefn (val) (flet ((helperfn (arg) (* arg 2))) (list (helperfn val) (lib:helperfn val)))) (debug-print (usefn A))",
+	"(in-package 'lib) (export 'countv) (set 'countv 7) (in-package 'user) (defun loopfn (val) (let* ([countv (+ val 1)] [other (+ countv lib:countv)]) (dotimes (countv 2) (set 'seen lib:countv)) (list countv other seen))) (debug-print (loopfn B))",
 	// every spelling of an export the runtime accepts: a string, a quoted list of names, several arguments
 	"(in-package 'lib) (export \"pubfn\") (defun pubfn (val) (+ val (privfn 1))) (defun privfn (val) val) (in-package 'user) (use-package 'lib) (debug-print (pubfn A))",
 	"(in-package 'lib) (export '(otherfn pubfn)) (defun otherfn (val) val) (defun pubfn (val) (+ val (privfn 1))) (defun privfn (val) val) (in-package 'user) (use-package 'lib) (debug-print (pubfn A) (otherfn B))",
